@@ -9,12 +9,24 @@
      graphs — the model is undefined although Python's copy may succeed: the theorems are SILENT there (ASSUMPTIONS in
      harness/props/C11.py; witness C11_nested_container_outside_the_domain).  C11_defined_history_independent is the history theorem
      with that domain as an explicit hypothesis; the older history theorems hold with or without it.
+   * THE CLASS HYPOTHESIS is hidden in `copy_M ... = Some ...`: copy() RUNS __init__ of the class as it is NOW
+     (self.__class__(span=...)), so the theorems that start from a defined copy assume that this __init__ runs through (last premise
+     of C11_copy_defined).  A class mutated into a state in which M(span) itself raises (a duplicate appended to NAMES, an alias that
+     maps a variable's name: `M.NAMES.append('Y')`, `AM.ALIASES['G'] = 'Y'`) makes the copy of every OLDER instance raise as well.
+     The oracle flags a raising copy unless the class is broken in exactly that sense (the constructor itself raises on the same
+     span); such class mutations are generated.  The same holds for a linker whose name was set to one of its submodel identifiers
+     (`l.name = 'A'`): construction refuses that state (fix f5ef8bd), so does the copy.
+   * DEFINITIONAL (do not count them as covering a clause): C11_reindex_is_an_admitted_event (unfolds event_ok),
+     C11_hypotheses_satisfiable and every `..._example` (instances), C11_every_operation_is_tight /
+     C11_operations_use_fresh_sources / C11_tracer_class_list_no_leak (facts about the hand-written table Heap.compile_op).
+     C11_history_independent / C11_copy_independent / C11_*_then_any_operations treat an undefined copy as a no-op; the domain is
+     carried by C11_defined_history_independent.
    * The operation theorems (C11_every_operation_is_tight, C11_operations_use_fresh_sources, C11_tracer_class_list_no_leak) are
      statements about the hand-written table Heap.compile_op, proved by case analysis on it; they say nothing about fsic by
      themselves.  That a real operation stores no class-owned / caller-owned object by reference is tied to the code ONLY by the
      correspondence K (id() scan of every pair of roots after every event, trees below every root).
    * Only K / the oracle, no theorem: which exceptions the real operations raise; the span-equality check between the submodels
-     of a linker (InitialisationError) — linkers are generated with equal spans, a failing construction ends the history on both
+     of a linker (InitialisationError; the name-vs-identifier test IS modelled: ELinkerInit / linker_copy_M) — linkers are generated with equal spans, a failing construction ends the history on both
      sides; preservation of tree-likeness / the forest through __init__ and the final __dict__.update of copy().
    * C11_reindex_is_an_admitted_event only unfolds event_ok (it records that reindex is inside the history theorems); the
      substantive statement is C11_reindex_disjoint. *)
@@ -48,8 +60,9 @@ Theorem C11_linker_copy_disjoint K h r h' r' b :
   wf h' /\ same_subheap h h' b /\ sep h' r' b /\ (forall l, reach h' r' l -> (length h <= l)%nat).
 Proof. exact (linker_copy_disjoint K h r h' r' b). Qed.
 
-(* the copy is of the same class and observationally equal to the original at every depth.  Only hypothesis: no duplicate keys in
-   the original's __dict__ (true of every dict).  No hypothesis about the class any more: since fix eb971db the copy drops whatever
+(* the copy is of the same class and observationally equal to the original at every depth.  Only explicit hypothesis: no duplicate keys in
+   the original's __dict__ (true of every dict); the class enters through `copy_M ... = Some ...` (its __init__ must run through, see
+   the header and C11_copy_defined).  No hypothesis about the class's KEYS any more: since fix eb971db the copy drops whatever
    __init__ of the class as it is NOW set up beyond the original's entries (was the guard "every key a fresh instance gets is a key
    of the original", finding extra-entry-after-class-NAMES-extended) *)
 Theorem C11_copy_observationally_equal K h r h' r' o :
@@ -77,6 +90,24 @@ Theorem C11_linker_copy_observationally_equal_example :
     NoDup (map fst (ocells o)) /\ submodels_copyable_seq K0 (sh s_lk) (ocells od) /\
     linker_copy_M K0 (sh s_lk) lk_root = Some (h', r').
 Proof. exact ex_linker_copy_sim_hypotheses. Qed.
+
+(* fix c17e74a (regression of f5ef8bd found by the second review): BaseLinker.copy passes the ORIGINAL's name to the constructor.  A
+   linker with a non-default name and a submodel keyed by the default name '_' is copied by all three routes, the copies keep the
+   name, equal the original and share nothing with it; the constructor's name-vs-identifier test refuses a linker named like one of
+   its submodels (no root), and after `l.name = <a submodel identifier>` the copy is undefined (the constructor refuses: an object
+   in a state construction would not allow) *)
+Theorem C11_linker_copy_keeps_name_example :
+  length (sroots s_named) = 5%nat /\
+  (let s1 := run_hevents K0 s_named [HCopyRoute RCopy 4; HCopyRoute RCopyCopy 4; HCopyRoute RDeepCopy 4] in
+   length (sroots s1) = 8%nat /\
+   nth 5 (root_views s1 7) CCut = nth 4 (root_views s1 7) CCut /\
+   nth 6 (root_views s1 7) CCut = nth 4 (root_views s1 7) CCut /\
+   nth 7 (root_views s1 7) CCut = nth 4 (root_views s1 7) CCut /\
+   own_scalar (sh s1) (nth 5 (sroots s1) O) (A N_name) = 701 /\
+   filter (fun x => Nat.leb 5 (snd (fst x))) (sharing s1) = []) /\
+  length (sroots (run_events K0 s_pre [ELinkerInit 1 [(117, 2%nat); (603, 3%nat)] 117])) = 4%nat /\
+  length (sroots (run_hevents K0 s_named [HOps 4 [OSetAttr N_name 603]; HCopyRoute RCopy 4])) = 5%nat.
+Proof. exact ex_linker_copy_keeps_name. Qed.
 
 (* component: the dict comprehension {k: copy.deepcopy(v)} over the submodels yields, key by key, observationally equal submodels *)
 Theorem C11_linker_copy_submodels_observationally_equal K cs h h' cs' :
@@ -118,7 +149,8 @@ Theorem C11_deepcopy_defined h v :
 Proof. exact (deepcopy_defined h v). Qed.
 
 (* VectorContainer.copy (either memo policy) is defined on an instance whose span and whose __dict__ entries are such values and
-   whose class's __init__ runs through on the copied span *)
+   whose class's __init__ runs through on the copied span.  THE LAST PREMISE IS A HYPOTHESIS ABOUT THE CLASS AS IT IS NOW: copy()
+   constructs a new instance; a class whose constructor raises (duplicate in NAMES, an alias shadowing a variable) has no copies *)
 Theorem C11_copy_defined K h r o c sp :
   wf h -> nth_error h r = Some o -> okind o = KCont c -> cell_get (A N_span) (ocells o) = Some sp ->
   plain_tree h sp -> entries_plain h (ocells o) ->
@@ -547,3 +579,4 @@ Print Assumptions C11_copy_defined_example.
 Print Assumptions C11_nested_container_outside_the_domain.
 Print Assumptions C11_sibling_linkers_on_copies_example.
 Print Assumptions C11_copy_after_class_NAMES_extended_equal.
+Print Assumptions C11_linker_copy_keeps_name_example.
